@@ -17,7 +17,7 @@
     order (`Abs.Idx.up_then_down`; the abstract machine does not see the order of the list, `execAll_perm`).
 
   * `changed_column_reverted` — **a column that differs is put back**: for a column of a table present on both sides
-    whose type or options (other than COMMENT, up to order) differ, `MigrationColumnDown` of the diffed record prints a
+    whose type or options (up to order) differ, `MigrationColumnDown` of the diffed record prints a
     MODIFY COLUMN whose definition the reference engine reads as exactly the *old* side's column (the attributes
     `Table.Diff` kept as `previous`); the down half of `C01.changed_column_modified` (Proofs/Changed.lean).
 
@@ -36,7 +36,7 @@
     `index-redefined-old-columns-dropped` read downwards.
 
   * `schema_on_reference_engine` — **the whole down migration, the executable predicate `Spec.c02` itself**: for scripts
-    without foreign keys, inline PRIMARY KEY and COMMENT options (MySQL reader model, default field order), tables on
+    without foreign keys and inline PRIMARY KEY (MySQL reader model, default field order), tables on
     both sides order-compatible with the same primary key and outside the recorded region, `modelDown` returns, and
     its statements — DROP TABLE for what the up migration created, the column and index statements of the tables both
     sides have, CREATE TABLE with indexes for what the up migration dropped —, executed by `Spec.execAll` on the *new*
@@ -44,7 +44,7 @@
     each acts on an element that differs (Proofs/SpecTableDown, SpecJustifiedDown, SpecSchemaDown).  With
     `C01.schema_on_reference_engine`: on the reference engine, down undoes up.
 
-  Missing for the full statement: as for C01 (a changed primary key, a COMMENT-only difference, drop suppression); covered by
+  Missing for the full statement: as for C01 (a changed primary key, foreign keys on the reference engine); covered by
   correspondence + the executable predicate `Spec.c02` on the implementation's printed down migration.
 -/
 import SqlizeModel.Abs.Columns
@@ -209,8 +209,7 @@ theorem changed_column_reverted (g : Globals) (hg : g.dialect = .mysql) (rc : Bo
     (d : Migration) (hd : loadAndDiff g old new = .ok d)
     (t : String) (tbO tbN : TableSpec) (hfo : dbO.find t = some tbO) (hfn : dbN.find t = some tbN)
     (cN cO : ColSpec) (hcN : cN ∈ tbN.cols) (hcO : cO ∈ tbO.cols) (hname : cO.name = cN.name)
-    (hchg : cO.typ ≠ cN.typ ∨
-      (¬ cO.opts.Perm cN.opts ∧ (∀ k ∈ cO.opts, k.noComment = true) ∧ (∀ k ∈ cN.opts, k.noComment = true))) :
+    (hchg : cO.typ ≠ cN.typ ∨ ¬ cO.opts.Perm cN.opts) :
     ∃ td ∈ d.tables, td.name = t ∧ td.action = .none ∧
       ∃ cd, Stmt.modifyColumn t cd ∈ (Table.walkCols g t false [] td.cols).1 ∧
         (colOf cd).2 = false ∧ (colOf cd).1.name = cO.name ∧ (colOf cd).1.typ = cO.typ ∧ (colOf cd).1.opts.Perm cO.opts := by
@@ -226,14 +225,12 @@ theorem columns_on_reference_engine (g : Globals) (hg : g.dialect = .mysql) (hio
     (heo : execAll rc [] old = some dbO) (hen : execAll rc [] new = some dbN)
     (d : Migration) (hd : loadAndDiff g old new = .ok d)
     (t : String) (tbO tbN : TableSpec) (hfo : dbO.find t = some tbO) (hfn : dbN.find t = some tbN)
-    (hc : Abs.OrderCompatible tbN.colNames tbO.colNames) (hne : ∀ n ∈ tbN.colNames ++ tbO.colNames, n ≠ "")
-    (hncO : ∀ c ∈ tbO.cols, ∀ k ∈ c.opts, k.noComment = true)
-    (hncN : ∀ c ∈ tbN.cols, ∀ k ∈ c.opts, k.noComment = true) :
+    (hc : Abs.OrderCompatible tbN.colNames tbO.colNames) (hne : ∀ n ∈ tbN.colNames ++ tbO.colNames, n ≠ "") :
     ∃ td ∈ d.tables, td.name = t ∧ td.migrationColumnDown g = .ok (Table.walkCols g t false [] td.cols) ∧
       ∃ db' tb', execAll false dbN (Table.walkCols g t false [] td.cols).1 = some db' ∧
         db'.find t = some tb' ∧ colsEquiv tb'.cols tbO.cols = true ∧
         (∀ u, u ≠ t → db'.find u = dbN.find u) ∧ db'.map (·.name) = dbN.map (·.name) :=
-  columns_spec_down_db g hg hio rc old new dbO dbN ho hn hpo hpn heo hen d hd t tbO tbN hfo hfn hc hne hncO hncN
+  columns_spec_down_db g hg hio rc old new dbO dbN ho hn hpo hpn heo hen d hd t tbO tbN hfo hfn hc hne
 
 -- non-vacuity: the pair of `C01.exOldCE` / `C01.exNewCE`, walked down from the new schema
 example : ∃ d dbO dbN, loadAndDiff {} C01.exOldCE C01.exNewCE = .ok d ∧ execAll true [] C01.exOldCE = some dbO ∧
@@ -267,13 +264,12 @@ theorem schema_on_reference_engine (g : Globals) (hg : g.dialect = .mysql) (hio 
     (heo : execAll rc [] old = some dbO) (hen : execAll rc [] new = some dbN)
     (hdef : ∀ tb ∈ dbO ++ dbN, tb.name ≠ Migration.defaultMigrationTable)
     (hnofk : ∀ tb ∈ dbO ++ dbN, tb.fks = [])
-    (hncm : ∀ tb ∈ dbO ++ dbN, ∀ c ∈ tb.cols, ∀ k ∈ c.opts, k.noComment = true)
     (hboth : ∀ tbO ∈ dbO, ∀ tbN ∈ dbN, tbO.name = tbN.name →
       Abs.OrderCompatible tbN.colNames tbO.colNames ∧ (∀ n ∈ tbN.colNames ++ tbO.colNames, n ≠ "") ∧ tbO.pk = tbN.pk ∧
       (∀ dc : List String, (∀ c ∈ dc, c ∉ tbO.colNames) →
         ∀ s ∈ tbN.idxs, ∀ o ∈ tbO.idxs, o.name = s.name → o ≠ s → ∃ c ∈ s.cols, c ∉ dc)) :
     ∃ down, modelDown g old new = .ok down ∧ c02 g.ignoreOrder dbO dbN down false = .ok () := by
-  obtain ⟨d, out, hd, hU, ⟨db', he, heq⟩, hj⟩ := schema_spec_down g hg hio rc old new dbO dbN ho hn hpo hpn heo hen hdef hnofk hncm hboth
+  obtain ⟨d, out, hd, hU, ⟨db', he, heq⟩, hj⟩ := schema_spec_down g hg hio rc old new dbO dbN ho hn hpo hpn heo hen hdef hnofk hboth
   refine ⟨out.flatten, ?_, ?_⟩
   · unfold modelDown
     simp only [hd, hU, bind, Except.bind, pure, Except.pure]
@@ -294,7 +290,6 @@ theorem up_then_down_on_reference_engine (g : Globals) (hg : g.dialect = .mysql)
     (heo : execAll rc [] old = some dbO) (hen : execAll rc [] new = some dbN)
     (hdef : ∀ tb ∈ dbO ++ dbN, tb.name ≠ Migration.defaultMigrationTable)
     (hnofk : ∀ tb ∈ dbO ++ dbN, tb.fks = [])
-    (hncm : ∀ tb ∈ dbO ++ dbN, ∀ c ∈ tb.cols, ∀ k ∈ c.opts, k.noComment = true)
     (hboth : ∀ tbO ∈ dbO, ∀ tbN ∈ dbN, tbO.name = tbN.name →
       Abs.OrderCompatible tbN.colNames tbO.colNames ∧ (∀ n ∈ tbN.colNames ++ tbO.colNames, n ≠ "") ∧ tbO.pk = tbN.pk ∧
       (∀ dc : List String, (∀ c ∈ dc, c ∉ tbN.colNames) →
@@ -303,9 +298,9 @@ theorem up_then_down_on_reference_engine (g : Globals) (hg : g.dialect = .mysql)
         ∀ s ∈ tbN.idxs, ∀ o ∈ tbO.idxs, o.name = s.name → o ≠ s → ∃ c ∈ s.cols, c ∉ dc)) :
     ∃ up down, modelUp g old new = .ok up ∧ modelDown g old new = .ok down ∧
       c01 g.ignoreOrder dbO dbN up false = .ok () ∧ c02 g.ignoreOrder dbO dbN down false = .ok () := by
-  obtain ⟨up, h1, h2⟩ := C01.schema_on_reference_engine g hg hio rc old new dbO dbN ho hn hpo hpn heo hen hdef hnofk hncm
+  obtain ⟨up, h1, h2⟩ := C01.schema_on_reference_engine g hg hio rc old new dbO dbN ho hn hpo hpn heo hen hdef hnofk
     (fun a ha b hb e => by obtain ⟨x1, x2, x3, x4, _⟩ := hboth a ha b hb e; exact ⟨x1, x2, x3, x4⟩)
-  obtain ⟨down, h3, h4⟩ := schema_on_reference_engine g hg hio rc old new dbO dbN ho hn hpo hpn heo hen hdef hnofk hncm
+  obtain ⟨down, h3, h4⟩ := schema_on_reference_engine g hg hio rc old new dbO dbN ho hn hpo hpn heo hen hdef hnofk
     (fun a ha b hb e => by obtain ⟨x1, x2, x3, _, x5⟩ := hboth a ha b hb e; exact ⟨x1, x2, x3, x5⟩)
   exact ⟨up, down, h1, h3, h2, h4⟩
 
@@ -326,13 +321,12 @@ theorem schema_on_reference_engine_either_setting (g : Globals) (hg : g.dialect 
     (heo : execAll rc [] old = some dbO) (hen : execAll rc [] new = some dbN)
     (hdef : ∀ tb ∈ dbO ++ dbN, tb.name ≠ Migration.defaultMigrationTable)
     (hnofk : ∀ tb ∈ dbO ++ dbN, tb.fks = [])
-    (hncm : ∀ tb ∈ dbO ++ dbN, ∀ c ∈ tb.cols, ∀ k ∈ c.opts, k.noComment = true)
     (hboth : ∀ tbO ∈ dbO, ∀ tbN ∈ dbN, tbO.name = tbN.name →
       Abs.OrderCompatible tbN.colNames tbO.colNames ∧ (∀ n ∈ tbN.colNames ++ tbO.colNames, n ≠ "") ∧ tbO.pk = tbN.pk ∧
       (∀ dc : List String, (∀ c ∈ dc, c ∉ tbO.colNames) →
         ∀ s ∈ tbN.idxs, ∀ o ∈ tbO.idxs, o.name = s.name → o ≠ s → ∃ c ∈ s.cols, c ∉ dc)) :
     ∃ down, modelDown g old new = .ok down ∧ c02 g.ignoreOrder dbO dbN down false = .ok () :=
-  schema_down_any g hg rc old new dbO dbN ho hn hpo hpn heo hen hdef hnofk hncm hboth
+  schema_down_any g hg rc old new dbO dbN ho hn hpo hpn heo hen hdef hnofk hboth
 
 example : ∃ down dbO dbN, modelDown { ignoreOrder := true } C01.exOldW C01.exNewW = .ok down ∧ execAll true [] C01.exOldW = some dbO ∧
     execAll true [] C01.exNewW = some dbN ∧ (c02 true dbO dbN down false).toOption = some () :=
